@@ -74,14 +74,15 @@ def sto(a, idx, v):
 
 class SArr:
     """handle on a heap cell: (cell id, dtype, shape, fixed leading indices for row views)"""
-    __slots__ = ("cell", "dt", "shape", "fixed", "name")
+    __slots__ = ("cell", "dt", "shape", "fixed", "name", "snap")
 
-    def __init__(self, cell, dt, shape, fixed=(), name=None):
+    def __init__(self, cell, dt, shape, fixed=(), name=None, snap=None):
         self.cell = cell
         self.dt = dt
         self.shape = tuple(shape)
         self.fixed = tuple(fixed)
         self.name = name
+        self.snap = snap  # frozen contents (old(...) values): reads ignore the current heap
 
     @property
     def ndim(self):
